@@ -4,8 +4,9 @@ CONSTANTS
   Ring <- MCRing
   Patterns = {"p1", "p2", "p3"}
   Paths = {"/x", "/y"}
+  Addrs = {"in-1", "out"}
   CacheSize = 2
   MaxOps = 5
   FineGrain = FALSE
-INVARIANTS ExactShare OwnLocation CacheBounded
+INVARIANTS ExactShare OwnLocation OwnDecision CacheBounded
 CHECK_DEADLOCK FALSE
